@@ -55,6 +55,10 @@ def compare(a, b):
         if probes._canon(x).tobytes() != probes._canon(y).tobytes():
             idx = np.argwhere(~((x == y) | (np.isnan(x.astype(float)) & np.isnan(y.astype(float)))))
             return f"{v}: values differ at {idx[0].tolist() if len(idx) else '?'}"
+    for key in ("verif_optimization_saw", "verif_segmentation_saw"):
+        # which images the stub plugins were handed, pass by pass (recorded by the stubs in the dataset attrs)
+        if a.attrs.get(key) != b.attrs.get(key):
+            return f"{key}: the plugin step was given other images: {a.attrs.get(key)} != {b.attrs.get(key)}"
     if "indicator" in a.coords or "indicator" in b.coords:
         la = [str(s) for s in a.coords["indicator"].data] if "indicator" in a.coords else []
         lb = [str(s) for s in b.coords["indicator"].data] if "indicator" in b.coords else []
